@@ -6,11 +6,11 @@
 #   stmt := ('expr', E) | ('empty',) | ('var', is_var, E|None) | ('fn', name, [stmt]) | ('arrow', [stmt])
 #         | ('ret', E|None) | ('throw', E) | ('brk', label|None) | ('cont', label|None) | ('block', [stmt])
 #         | ('if', C, stmt) | ('ifelse', C, stmt, stmt) | ('while', C, stmt) | ('dowhile', stmt, C)
-#         | ('for', C|None, stmt) | ('forin', stmt) | ('forof', stmt) | ('switch', [(test, ft_comment, [stmt])])   test := E | None (= default)
+#         | ('for', C|None, stmt[, E|None, E|None])   `for (init; test; update) stmt` (init / update optional 4th / 5th component) | ('forin', stmt) | ('forof', stmt) | ('switch', [(test, ft_comment, [stmt])])   test := E | None (= default)
 #         | ('label', l, stmt) | ('try', [stmt], [stmt]|None, [stmt]|None)
 #         | ('gstmt', [stmt])                         `({get a() {...}});`  an object literal with a getter, as a statement
 #         | ('forhead', is_getter, [stmt], stmt)      `for (const [k = FN] of o) stmt`, FN = `() => {...}` / `{get a() {...}}`
-#   E := ('id', n) | ('call', n) | ('lit',) | ('this',)
+#   E := ('id', n) | ('call', n) | ('lit',) | ('this',) | ('spread', n)  `[...vN]` | ('computed', n)  `({[vN]: 1})`
 #   C := ('T',) | ('F',) | ('O', E) | ('S', E, bool)  `(E, true)` / `E || true` / `(E, false)` / `E && false`
 #      | ('U',)  always truthy, swc's cast_to_bool says Unknown (`` `a` ``, `!!!!1`)
 #      | ('G', text)  only in the fixed dependency corpus: NaN-valued arithmetic (falsy; swc says Known(true))
@@ -41,7 +41,7 @@ SEQ_TRUE_SP = [("(", ", true)"), ("", " || true"), ("(", ", 1)"), ("", " || 1")]
 SEQ_FALSE_SP = [("(", ", false)"), ("", " && false"), ("(", ", 0)")]
 # a call whose value decides: cast_to_bool = Unknown, visited like the call itself
 OPAQUE_CALL_SP = [("", ""), ("", ""), ("true && ", ""), ("", " && 1"), ("!", ""), ("0 || ", "")]
-LIT_SP = ["1", "0", "null", "2.5"]
+LIT_SP = ["1", "0", "null", "2.5", "[1]", "({a: 1})", "1"]
 # heads of a for-in/of with a default value FN: (text before FN, text after FN up to the `in`/`of` keyword)
 HEAD_SP = [("const [k = ", "]"), ("const {k = ", "}"), ("var [k = ", "]"), ("let [, k = ", "]"), ("[k = ", "]"), ("const {a: [k = ", "]}")]
 
@@ -74,6 +74,10 @@ class Printer:
             self.t(1, e[1]); self.w("v%d()" % e[1])
         elif e[0] == 'this':
             self.t(3); self.w("this")
+        elif e[0] == 'spread':
+            self.t(4, e[1]); self.w("[...v%d]" % e[1])
+        elif e[0] == 'computed':
+            self.t(5, e[1]); self.w("({[v%d]: 1})" % e[1])
         else:
             self.t(2); self.w(self.pick(LIT_SP))
 
@@ -162,12 +166,20 @@ class Printer:
         elif k == 'dowhile':
             self.t(13, p); self.w("do "); self.stmt(s[1]); self.w(" while ("); self.cond(s[2]); self.w(");")
         elif k == 'for':
-            self.t(14, p); self.w("for (;")
+            init = s[3] if len(s) > 3 else None
+            upd = s[4] if len(s) > 4 else None
+            self.t(14, p); self.w("for (")
+            self.oexpr(init)
+            self.w(";")
             if s[1] is None:
                 self.t(0)
             else:
                 self.t(1); self.w(" "); self.cond(s[1])
-            self.w(";) "); self.stmt(s[2])
+            self.w(";")
+            if upd is not None:
+                self.w(" ")
+            self.oexpr(upd)
+            self.w(") "); self.stmt(s[2])
         elif k in ('forin', 'forof'):
             self.t(15 if k == 'forin' else 16, p)
             self.w("for (var k %s o) " % ("in" if k == 'forin' else "of")); self.stmt(s[1])
@@ -281,7 +293,8 @@ def coq_term(prog):
 
     def expr():
         t = nx()
-        return "(EIdent %d)" % nx() if t == 0 else "(ECall %d)" % nx() if t == 1 else "ELit" if t == 2 else "EThis"
+        return ("(EIdent %d)" % nx() if t == 0 else "(ECall %d)" % nx() if t == 1 else "ELit" if t == 2 else "EThis" if t == 3
+                else "(ESpread %d)" % nx() if t == 4 else "(EComputed %d)" % nx())
 
     def opt(f):
         return "(Some %s)" % f() if nx() else "None"
@@ -344,7 +357,7 @@ def coq_term(prog):
         if t == 13:
             b = stmt(); return "(SDoWhile %d %s %s)" % (p, b, cond())
         if t == 14:
-            c = opt(cond); return "(SFor %d %s %s)" % (p, c, stmt())
+            i = opt(expr); c = opt(cond); u = opt(expr); return "(SFor %d %s %s %s %s)" % (p, i, c, u, stmt())
         if t == 15: return "(SForIn %d %s)" % (p, stmt())
         if t == 16: return "(SForOf %d %s)" % (p, stmt())
         if t == 17: return "(SSwitch %d %s)" % (p, cases())
@@ -409,12 +422,16 @@ class Gen:
 
     def expr(self):
         x = self.r.random()
-        if x < 0.45:
+        if x < 0.38:
             return ('call', self.r.randrange(1, 6))
-        if x < 0.85:
+        if x < 0.76:
             return ('id', self.r.randrange(1, 6))
-        if x < 0.96:
+        if x < 0.87:
             return ('lit',)
+        if x < 0.92:
+            return ('spread', self.r.randrange(1, 6))
+        if x < 0.96:
+            return ('computed', self.r.randrange(1, 6))
         return ('this',)
 
     def case_test(self):
@@ -423,8 +440,10 @@ class Gen:
             return ('lit',)
         if x < 0.75:
             return ('id', self.r.randrange(1, 6))
-        if x < 0.92:
+        if x < 0.88:
             return ('call', self.r.randrange(1, 6))
+        if x < 0.94:
+            return self.r.choice([('spread', self.r.randrange(1, 6)), ('computed', self.r.randrange(1, 6))])
         return ('this',)
 
     def cond(self):
@@ -503,7 +522,11 @@ class Gen:
             b = self.stmt(loop)
             return ('dowhile', b, self.cond())
         if k == 'for':
-            return ('for', None if r.random() < 0.5 else self.cond(), self.stmt(loop))
+            c = None if r.random() < 0.5 else self.cond()
+            body = self.stmt(loop)
+            init = self.expr() if r.random() < 0.3 else None
+            upd = self.expr() if r.random() < 0.45 else None
+            return ('for', c, body, init, upd) if (init is not None or upd is not None) else ('for', c, body)
         if k in ('forin', 'forof'):
             return (k, self.stmt(loop))
         if k == 'switch':
@@ -569,6 +592,8 @@ def gen_program(rng):
 # exhaustive enumeration (seed independent)
 # ----------------------------------------------------------------------------
 ENUM_ATOMS = [('expr', ('call', 1)), ('expr', ('id', 1)), ('ret', ('lit',)), ('throw', ('lit',)), ('throw', ('id', 1))]
+# in the rich layers also: expressions that can throw without being a call, a `return` of one
+ENUM_ATOMS_RICH = ENUM_ATOMS + [('ret', ('spread', 1))]
 ENUM_CONDS_BASIC = [('T',), ('O', ('id', 2))]
 ENUM_CONDS_RICH = ENUM_CONDS_BASIC + [('S', ('call', 1), True)]
 # the constructs added later (getter statements, loop heads, throwing constant tests) are enumerated for programs of up
@@ -579,7 +604,7 @@ ENUM_RICH = [True]
 def enum_stmt(n, brk, cont, labels, loop_labels, mine=()):
     """all statements with exactly n statement nodes"""
     if n == 1:
-        for a in ENUM_ATOMS:
+        for a in (ENUM_ATOMS_RICH if ENUM_RICH[0] else ENUM_ATOMS):
             yield a
         if brk:
             yield ('brk', None)
@@ -603,6 +628,8 @@ def enum_stmt(n, brk, cont, labels, loop_labels, mine=()):
             yield ('dowhile', b, c)
         yield ('dowhile', b, ('F',))
         yield ('for', None, b)
+        if ENUM_RICH[0]:
+            yield ('for', None, b, None, ('call', 1))     # for (;; v1()) b
     lab = len(labels) + 1
     for b in enum_stmt(m, brk, cont, (lab,) + tuple(labels), loop_labels, mine=(lab,) + tuple(mine)):
         yield ('label', lab, b)
@@ -642,6 +669,47 @@ def enum_list(n, brk, cont, labels, loop_labels):
         for s in enum_stmt(i, brk, cont, labels, loop_labels):
             for r in enum_list(n - i, brk, cont, labels, loop_labels):
                 yield [s] + r
+
+
+def fixed_programs():
+    """hand-written programs that are part of every run (seed independent): one trigger per kind of defect found so far,
+       in the wrappers that make it visible to each of the three rules"""
+    I = lambda n: ('id', n)
+    C = lambda n: ('call', n)
+    O = lambda n: ('O', ('id', n))
+    out = []
+    # the update of an endless `for` can throw: handler / code after the try / end of the getter / next case are reachable
+    for upd in (C(1), ('spread', 1), ('computed', 1)):
+        for test in (None, ('T',)):
+            loop = ('for', test, ('if', O(2), ('ret', I(1))), None, upd)
+            out.append(('fn', [('try', [loop], [('expr', I(3))], None), ('expr', I(4))]))
+            out.append(('getter', [('try', [loop], [], None)]))
+            out.append(('switch', [('try', [('for', test, ('if', O(2), ('cont', None)), None, upd)], [], None)]))
+    # init of a `for` that can throw
+    out.append(('fn', [('try', [('for', None, ('empty',), C(1), None)], [('expr', I(3))], None), ('expr', I(4))]))
+    # expressions that can throw without being a call / member / assignment: array spread, computed key
+    for e in (('spread', 1), ('computed', 1)):
+        out.append(('fn', [('try', [('ret', e)], [], None), ('expr', I(2))]))
+        out.append(('fn', [('try', [('var', False, e), ('ret', I(1))], [('expr', I(3))], None), ('expr', I(2))]))
+        out.append(('getter', [('try', [('ret', e)], [], None)]))
+        out.append(('getter', [('try', [('var', False, e), ('ret', I(1))], [], None)]))
+        out.append(('switch', [('try', [('var', False, e), ('brk', None)], [], None)]))
+        out.append(('switch', [('try', [('expr', e), ('ret', I(1))], [], None)]))
+        out.append(('fn', [('switch', [(e, False, [('ret', I(1))]), (None, False, [('ret', I(2))])])]))
+    # a literal / array / object literal cannot throw: the twin programs (analyzer: may throw - over-approximation)
+    out.append(('getter', [('try', [('ret', ('lit',))], [], None)]))
+    # earlier classes: A (do-while + continue), B (labelled and unlabelled break), D (throw of an identifier in try),
+    # E (function-like in a loop head), F (constant-true test that can throw)
+    out.append(('fn', [('dowhile', ('try', [('throw', ('lit',))], None, [('cont', None)]), O(2)), ('expr', I(1))]))
+    out.append(('fn', [('label', 1, ('block', [('for', None, ('block', [('if', O(1), ('brk', 1)), ('if', O(2), ('brk', None))])), ('expr', C(3))]))]))
+    out.append(('fn', [('try', [('throw', I(1))], [], None), ('expr', I(1))]))
+    out.append(('fn', [('forhead', True, [], ('empty',))]))
+    out.append(('fn', [('forhead', False, [('switch', [(('lit',), False, [('ret', ('lit',))]), (('lit',), False, [('ret', ('lit',))])])], ('empty',))]))
+    for loop in (('while', ('S', C(1), True), ('block', [])), ('dowhile', ('block', []), ('S', C(1), True))):
+        out.append(('fn', [('try', [loop], [('expr', I(2))], None)]))
+        out.append(('getter', [('try', [loop], [], None)]))
+        out.append(('switch', [('try', [loop], [], None)]))
+    return out
 
 
 def enum_programs(max_size):
@@ -1020,11 +1088,16 @@ def shrink_candidates_stmt(s, in_list=False):
         yield s[2]
         if k == 'while' and s[1] not in (('T',), ('O', ('id', 2))):
             yield ('while', ('O', ('id', 2)), s[2])
+        if k == 'for' and len(s) > 3:
+            yield ('for', s[1], s[2])
+            if s[3] is not None and s[4] is not None:
+                yield ('for', s[1], s[2], s[3], None)
+                yield ('for', s[1], s[2], None, s[4])
         if k == 'for' and s[1] is not None:
-            yield ('for', None, s[2])
+            yield ('for', None, s[2]) + tuple(s[3:])
         for v in shrink_candidates_stmt(s[2]):
             if not isinstance(v, list):
-                yield (k, s[1], v)
+                yield (k, s[1], v) + tuple(s[3:])
     elif k == 'dowhile':
         yield s[1]
         if s[2] not in (('T',), ('O', ('id', 2))):
@@ -1234,7 +1307,7 @@ def compare_all(tier="quick", seed=1, mask=DEFAULT_MASK, chunk=20000, shrink_lim
     impl_items = []      # (prog, src, kind, offset, explained_by_model)
 
     def batches():
-        ex = enum_programs(cfg["exhaustive"])
+        ex = itertools.chain(fixed_programs(), enum_programs(cfg["exhaustive"]))
         while True:
             b = list(itertools.islice(ex, chunk))
             if not b:
